@@ -16,7 +16,7 @@ PROPERTY = "C27"
 LEVEL = "exploration"
 TECHNIQUE = "runtime monitoring: random operation histories on the real fixeddict classes vs a plain-dict model, invariant checked after every operation"
 RULE = (
-    "case = (fixeddict type, history seed); a history is 4-30 operations drawn from construct(kwargs|mapping|pairs), "
+    "case = (fixeddict type, history seed); a history is 4-30 operations drawn from construct(kwargs|mapping|pairs|instance of another fixeddict type), "
     "[]=, setdefault, update(mapping|pairs|kwargs|mixed), |= (mapping|pairs), copy, pickle protocols 0-5, deepcopy, "
     "del/pop/clear, each with declared and/or undeclared keys; distinct = distinct (type, operation-kind sequence, "
     "which operands carried undeclared keys); histories with no undeclared-key operand and no copy/pickle are trivial"
@@ -158,7 +158,7 @@ def run_case(case, ctx):
     nops = rng.randrange(4, 31)
     for _ in range(nops):
         op = rng.choice(
-            ["construct_kw", "construct_map", "construct_pairs", "setitem", "setdefault", "update_map", "update_pairs",
+            ["construct_kw", "construct_map", "construct_pairs", "construct_other", "construct_other", "setitem", "setdefault", "update_map", "update_pairs",
              "update_kw", "update_mixed", "ior_map", "ior_pairs", "copy", "pickle", "deepcopy", "del", "pop", "clear",
              "copy_copy"]
         )
@@ -176,7 +176,21 @@ def run_case(case, ctx):
         try:
             if op.startswith("construct"):
                 new_model = dict(pairs)
-                if op == "construct_kw":
+                if op == "construct_other":
+                    # the source is an instance of a *different* fixeddict type (or of the same one) holding some keys
+                    others = fixeddict_types()
+                    oname = rng.choice(sorted(others))
+                    O = others[oname]
+                    okeys = list(O.entry_objs)
+                    src = O()
+                    for _k in rng.sample(okeys, min(len(okeys), rng.randrange(0, 4))):
+                        dict.__setitem__(src, _k, _value(rng))
+                    pairs = list(dict.items(src))
+                    has_u = any(k not in dset for k, _ in pairs)
+                    kinds[-1] = op + (":U" if has_u else "")
+                    new_model = dict(pairs)
+                    nd = T(src)
+                elif op == "construct_kw":
                     nd = T(**dict(pairs))
                 elif op == "construct_map":
                     nd = T(dict(pairs))
@@ -315,7 +329,7 @@ def floor(agg, tier):
         miss.append("fewer than 500 copy/pickle results observed")
     if len(agg["sets"].get("types", ())) < 20:
         miss.append("fewer than 20 fixeddict types exercised")
-    for op in ("ior_map", "ior_pairs", "update_kw", "setdefault", "pickle"):
+    for op in ("ior_map", "ior_pairs", "update_kw", "setdefault", "pickle", "construct_other"):
         if c.get("op:" + op, 0) == 0:
             miss.append("operation %s never exercised" % op)
     return miss
